@@ -178,7 +178,10 @@ fn corrupt_addr(a: &str, kind: u8, other_prefix: &str) -> String {
 
 fn corrupt_channel(c: &str, kind: u8) -> String {
     let n = c.strip_prefix("channel-").unwrap_or("1");
-    match kind % 14 {
+    match kind % 17 {
+        14 => format!("channel-channel-{n}"),
+        15 => format!("channel-{n}channel-"),
+        16 => format!("channel-{n}\u{0}"),
         0 => "channel-".into(),
         1 => "channel-x".into(),
         2 => format!("channel-+{n}"),
@@ -199,7 +202,12 @@ fn corrupt_channel(c: &str, kind: u8) -> String {
 fn corrupt_ibc(d: &str, kind: u8) -> String {
     let h = d.strip_prefix("ibc/").unwrap_or(d);
     let h63: String = h.chars().take(63).collect();
-    match kind % 8 {
+    match kind % 12 {
+        // the fixed prefix repeated: the remainder after *one* "ibc/" is then 68 / 72 characters
+        8 => format!("ibc/ibc/{h}"),
+        9 => format!("ibc/ibc/ibc/{h}"),
+        10 => format!("ibc/{h}ibc/"),
+        11 => format!("ibc/{h63}\u{0}"),
         0 => format!("ibc/{h63}"),
         1 => format!("ibc/{h}A"),
         2 => format!("IBC/{h}"),
@@ -499,6 +507,13 @@ pub fn check_cfg_case_panics(c: &CfgCase, agg: &mut Agg) -> Result<(), String> {
     }
 }
 
+/// C14 states what an *accepted* configuration looks like; that a well-formed one is accepted is demanded only
+/// for plain configurations (a fee of at most 100 %, distinct staker and reward collector, moderate periods):
+/// an implementation may refuse more than the property lists.
+fn must_accept(r: &RawCfg) -> bool {
+    r.fee <= 100_000 && r.staker != r.collector && r.batch_period <= 1_000_000_000 && r.unbonding <= 1_000_000_000
+}
+
 pub fn check_cfg_case(c: &CfgCase, agg: &mut Agg) -> Result<(), String> {
     let panics_only = PANICS_ONLY.with(|p| p.get());
     let clean = build(&c.seed);
@@ -524,7 +539,7 @@ pub fn check_cfg_case(c: &CfgCase, agg: &mut Agg) -> Result<(), String> {
     }
     let mut nontrivial = c.corrupt.len() == 1 && corrupted;
     if !out.ok {
-        if !corrupted {
+        if !corrupted && must_accept(&raw) {
             return Err(format!("a configuration built by the valid generator was rejected: {:?}\n{:?}", out.err, raw));
         }
         agg.evaluations += 1;
@@ -600,7 +615,7 @@ pub fn check_cfg_case(c: &CfgCase, agg: &mut Agg) -> Result<(), String> {
                     if ch.w.storage != before_storage {
                         return Err(format!("{what}: rejected but storage changed"));
                     }
-                    if was_clean {
+                    if was_clean && must_accept(&r2) {
                         return Err(format!("{what}: a valid update was rejected: {:?}", out.err));
                     }
                     if n_rel == 1 {
@@ -654,7 +669,7 @@ pub fn check_cfg_case(c: &CfgCase, agg: &mut Agg) -> Result<(), String> {
                     }
                     // only the raw diff of `config` may differ
                     let keys: Vec<String> = before_storage.diff_keys(&ch.w.storage).iter().map(|k| crate::store::key_namespace(k)).collect();
-                    if keys.iter().any(|k| k != "config") {
+                    if keys.iter().any(|k| k != "config" && crate::store::known_namespace(k)) {
                         return Err(ctx(format!("storage outside the config item changed: {:?}", keys)));
                     }
                     if *mask != 31 {
@@ -686,7 +701,12 @@ pub fn check_cfg_case(c: &CfgCase, agg: &mut Agg) -> Result<(), String> {
                 }
                 let want = *by_admin && valid && (*add != is_present);
                 // an upper-case spelling of a listed validator is a different string: adopt (DESIGN 1.1)
-                let adopt = kind % 5 == 4 && v != v.to_lowercase() && valid;
+                let mut adopt = kind % 5 == 4 && v != v.to_lowercase() && valid;
+                // a valid-but-unusual spelling (bech32m checksum, payload that is not 20/32 bytes, upper case) may be refused
+                let plain = crate::crypto::bech32_decode(&v).map(|d| !d.upper && d.classic && matches!(d.payload().map(|p| p.len()), Some(20) | Some(32))).unwrap_or(false);
+                if valid && !plain && *by_admin && !out.ok {
+                    adopt = true;
+                }
                 if out.ok != want && !adopt {
                     return Err(format!("{what}: ok={} but expected {want} (valid under {vp}: {valid}, listed: {is_present}) err={:?}", out.ok, out.err));
                 }
